@@ -36,6 +36,8 @@ def cls_of(deg):
 
 REPLAY_OP = REPLAY_ORACLE + '''
 import cmath, math
+import numpy as np
+from svgpathtools.path import transform
 ps = %r; t = %r
 seg = %s(*ps)
 op = %r; a = %r
@@ -122,7 +124,11 @@ def fam_bezier_ops(R, deg):
                 pts = [mcval(m, p) for p in ps]
                 return {'cls': '%s.%s' % (NAMES[deg], name), 'inputs': {'ps': str(pts), 't': mval(m, t), 'args': str(a)},
                         'script': REPLAY_OP % (pts, mval(m, t), NAMES[deg], name, a, NAMES[deg])}
-            R.ob('%s.%s' % (NAMES[deg], name), ctx, ceq(got, want), cex=cex, timeout_ms=60000)
+            g_, w_ = tosc(got), tosc(want)
+            from ..symx import zabs as _zabs
+            margin = [z3.Or(_zabs(g_.real.e - w_.real.e) >= 1e-4, _zabs(g_.imag.e - w_.imag.e) >= 1e-4)] + \
+                     [z3.And(p.real.e >= -50, p.real.e <= 50, p.imag.e >= -50, p.imag.e <= 50) for p in ps] + [t.e >= 0, t.e <= 1]
+            R.ob('%s.%s' % (NAMES[deg], name), ctx, ceq(got, want), cex=cex, timeout_ms=60000, robust=margin)
         R.sample({'class': NAMES[deg], 'ops': [o[0] for o in out], 'decisions': ''.join('TF'[not d[0]] for d in ctx.decisions[:ctx.pos])})
 
 
@@ -617,6 +623,8 @@ def fam_arc_transform(R, rot, mclass):
             cx.assume(M[0, 1].e != 0 if mclass == 'shear' else M[0, 0].e != 1)
             class NotIdentity:
                 # transform()'s identity shortcut `all((tf == np.eye(3)).ravel())` is explored in the Bezier family; here tf is not the identity
+                _never_equal = True
+
                 def __eq__(self, o):
                     return np.array([False])
                 __hash__ = None
